@@ -199,7 +199,9 @@ chk("C10",
     "a shape invariant of the disk); hence forward-only state, write-once configuration and index, results only in the ready state and from the "
     "accepted index, refusals change nothing, the echoed state is the durable state. The interpreter is tied to the real handler by executing "
     "ALL sequences up to depth 3 (quick) / 4 (thorough) over a 9-symbol alphabet plus random longer ones against the real websocket handler "
-    "with a real PiBas index, comparing traces and the final on-disk state; the reference machine is also evaluated directly on the real traces.",
+    "with a real PiBas index, comparing traces and the final on-disk state; the reference machine is also evaluated directly on the real traces (the harness waits "
+    "by the reference machine's predictions, never by the model's), including a second batch of sequences with requests the handler starts to store "
+    "and cannot (outside the model's alphabet, judged against the reference machine only).",
     "Trusted: Lean kernel + 3 standard axioms; the AST extractor's pattern table and the interpreter's reading of each IR op (validated by the "
     "correspondence); asyncio atomicity between awaits; the websockets library (a raising handler = close code 1011, refusal reply not delivered); "
     "configs/indexes/tokens opaque, Search is a leaf; the cleanup delay is harness-controlled. Overlapping connections are C12.",
